@@ -32,6 +32,8 @@ class SymZ:
     def _b(self, o, f):
         b = _l(o)
         if b is None:
+            if isinstance(o, (float, SymQuot)):
+                raise C.Unmodelled('floating-point arithmetic with a symbolic integer')
             return NotImplemented
         return mkz(f(self.e, b))
 
@@ -63,7 +65,7 @@ class SymZ:
     def _c(self, o, f):
         b = _l(o)
         if b is None:
-            return NotImplemented
+            return NotImplemented          # (a SymQuot on the other side answers through its reflected comparison)
         return C.mkbool(f(self.e, b))
 
     def __eq__(self, o): return self._c(o, lambda a, b: a == b)
@@ -141,16 +143,82 @@ class SymQuot:
             raise C.Unmodelled('comparison of a symbolic quotient with a large integer')
         return o
 
-    def __ge__(self, o): return self._cmp_ge(self._const(o), False)
-    def __gt__(self, o): return self._cmp_ge(self._const(o), True)
-    def __le__(self, o): return self._cmp_le(self._const(o), False)
-    def __lt__(self, o): return self._cmp_le(self._const(o), True)
+    # ---- exact value of the rounded quotient for a constant denominator: N * 2**sh, N an integer term
+    def rounded(self):
+        """(N, sh) with float(num/den) == N * 2**sh exactly.  The binade of the quotient is found by solver-decided forks
+        (one path per binade that is feasible under the path condition); inside a binade the 53-bit significand is the
+        round-half-even of num / (den * ulp) - integer division by a constant with a remainder test: linear integer
+        arithmetic with three fresh, functionally determined integers."""
+        if getattr(self, '_rounded', None) is not None:
+            return self._rounded
+        a, d = _l(self.num), mkz(_l(self.den))
+        if not isinstance(d, int):
+            raise C.Unmodelled('rounded value of a quotient with a symbolic denominator')
+        E = C.E()
+        if E.decide(a < 0):
+            raise C.Unmodelled('rounded value of a negative quotient')
+        if E.decide(a == 0):
+            self._rounded = (z3.IntVal(0), 0)
+            return self._rounded
+        k = -d.bit_length()
+        while True:
+            if k > 300:
+                raise C.Unmodelled('quotient magnitude beyond 2^300')
+            # 2^k <= a/d < 2^(k+1) ?   (the lower bound holds by construction of the loop)
+            hi = (a < d * (1 << (k + 1))) if k + 1 >= 0 else (a * (1 << -(k + 1)) < d)
+            if E.decide(hi):
+                break
+            k += 1
+        sh = k - 52
+        A, D = (a, d * (1 << sh)) if sh >= 0 else (a * (1 << -sh), d)
+        n, h, par = (z3.FreshConst(z3.IntSort(), nm) for nm in ('qn', 'qh', 'qp'))
+        r = A - n * D
+        E.add(z3.And(r >= 0, r < D, n == 2 * h + par, par >= 0, par <= 1))
+        N = n + z3.If(z3.Or(2 * r > D, z3.And(2 * r == D, par == 1)), 1, 0)
+        self._rounded = (N, sh)
+        return self._rounded
+
+    def _cmp_int(self, o, op):
+        """float(q) <op> o for an integer o (constant or symbolic): Python compares a float with an int exactly"""
+        N, sh = self.rounded()
+        c = _l(o)
+        lhs, rhs = (N * (1 << sh), c) if sh >= 0 else (N, c * (1 << -sh))
+        return C.mkbool({'ge': lhs >= rhs, 'gt': lhs > rhs, 'le': lhs <= rhs, 'lt': lhs < rhs, 'eq': lhs == rhs}[op])
+
+    def _is_int(self, o):
+        return isinstance(o, SymZ) or (isinstance(o, int) and not isinstance(o, bool) and abs(o) >= 2 ** 53)
+
+    def _sym_den(self):
+        return not isinstance(mkz(_l(self.den)), int)
+
+    def _cmp(self, o, op):
+        if self._is_int(o) or (isinstance(o, int) and not isinstance(o, bool) and not self._sym_den()):
+            return self._cmp_int(o, op)
+        o = self._const(o)
+        if op == 'ge': return self._cmp_ge(o, False)
+        if op == 'gt': return self._cmp_ge(o, True)
+        if op == 'le': return self._cmp_le(o, False)
+        if op == 'lt': return self._cmp_le(o, True)
+        from .api import And
+        return And(self._cmp_ge(o, False), self._cmp_le(o, False))
+
+    def __ge__(self, o): return self._cmp(o, 'ge')
+    def __gt__(self, o): return self._cmp(o, 'gt')
+    def __le__(self, o): return self._cmp(o, 'le')
+    def __lt__(self, o): return self._cmp(o, 'lt')
 
     def __eq__(self, o):
-        o = self._const(o)
-        a, b = self._cmp_ge(o, False), self._cmp_le(o, False)
-        from .api import And
-        return And(a, b)
+        return self._cmp(o, 'eq')
+
+    def __floor__(self):
+        N, sh = self.rounded()
+        return mkz(N * (1 << sh) if sh >= 0 else N / (1 << -sh))
+
+    def __ceil__(self):
+        N, sh = self.rounded()
+        return mkz(N * (1 << sh) if sh >= 0 else -((-N) / (1 << -sh)))
+
+    __int__ = __trunc__ = __floor__            # (the quotient is non-negative where rounded() succeeds)
 
     def __ne__(self, o):
         from .api import Not
@@ -161,8 +229,8 @@ class SymQuot:
     def _un(self, *a):
         raise C.Unmodelled('floating-point arithmetic on a symbolic quotient')
 
-    __add__ = __radd__ = __sub__ = __rsub__ = __mul__ = __rmul__ = __truediv__ = __rtruediv__ = __float__ = __int__ = _un
-    __round__ = __floor__ = __ceil__ = _un
+    __add__ = __radd__ = __sub__ = __rsub__ = __mul__ = __rmul__ = __truediv__ = __rtruediv__ = __float__ = _un
+    __round__ = _un
 
     def __format__(self, spec):
         return '<symbolic float>'
